@@ -179,6 +179,17 @@ def check_c04(pid, tier, seed, replay):
     ck.cov["exhaustive"] = True
     if ck.enough():
         return ck.finish()
+    # the parser machine stepped arm by arm: every arm of the `match` must fire (vacuity), and the
+    # stepped machine must agree with the grammar at the end of every text
+    cfg = write_cfg("gen/MC_HyParserSteps.cfg", "SPECIFICATION Spec\nCONSTANTS\n  Alphabet = {%s}\n  MaxLen = %d\nINVARIANT SteppedIsGrammar\nCHECK_DEADLOCK FALSE\n"
+                    % (", ".join(map(str, ALPHA_A)), 3 if quick else 4))
+    r = tlc("MC_HyParserSteps", cfg, workers=16, timeout=1800, xss="512m", coverage=True)
+    require_ok(r, "MC_HyParserSteps")
+    ck.add_tlc(r)
+    arms = {k: v for k, v in r.coverage.items() if k.startswith("Arm")}
+    ck.cov["vacuity"]["parser_arms_fired"] = arms
+    if len(arms) != 9 or any(v == 0 for v in arms.values()):
+        raise ToolError("vacuity: not every arm of the parser machine fired: %r" % arms)
     if quick:
         jobs = [["record", "--seed", str(seed + i), "--n", "500", "--maxlen", str(ml)] for i, ml in enumerate([40, 120, 400])]
         jobs.append(["record", "--seed", str(seed + 9), "--n", "3", "--maxlen", "30", "--chain", "4096"])
